@@ -115,6 +115,53 @@ EqFarApart(t, ctx) ==
      (LET x == BMul(a.n, b.d)  y == BMul(b.n, a.d)
           big == IF BCmp(BAbsX(x), BAbsX(y)) >= 0 THEN BAbsX(x) ELSE BAbsX(y) IN
       BCmp(BMul(BAbsX(BSub(x, y)), BPow(BigOf(2), 40)), big) > 0))
+(* ---- IEEE special-value view: which expressions over floats overflow to an infinity, turn into NaN, or stay finite. A value is
+        [c: "fin" | "inf" | "nan" | "unk", s: sign, lo, hi] where a finite non-zero value has its magnitude in [2^lo, 2^hi] - an
+        interval of binary exponents, exact at the leaves (the harness ships frexp's exponent of every float and the bit length of every
+        integer: |v| in [2^(lg-1), 2^lg)). Rounding is monotone and the interval ends are powers of two, so the double the code computes
+        stays inside the interval the real operation gives. Overflow is decided with a margin on both sides of 2^1024 (surely an
+        infinity from 2^1025 on, surely finite up to 2^1023); anything in between, anything that may underflow (below 2^-1000) and
+        anything behind a cancellation (a sum of operands of opposite signs) is "unk" and not judged. Infinities and NaN follow
+        IEEE 754 with the one documented deviation: a divisor that compares equal to zero gives NaN (also inf / 0). Integer-typed
+        subtrees are exact integers - they never become infinite - and are followed while they fit a double comfortably. ---- *)
+XUnk == [c |-> "unk"]
+XNan == [c |-> "nan"]
+XInf(s) == [c |-> "inf", s |-> s]
+XZero == [c |-> "fin", s |-> 0, lo |-> 0, hi |-> 0]
+XFin(s, lo, hi) == IF s = 0 THEN XZero ELSE IF lo >= 1025 THEN XInf(s) ELSE IF hi <= 1023 /\ lo >= -1000 THEN [c |-> "fin", s |-> s, lo |-> lo, hi |-> hi] ELSE XUnk
+XIntFin(s, lo, hi) == IF s = 0 THEN XZero ELSE IF hi <= 1000 THEN [c |-> "fin", s |-> s, lo |-> lo, hi |-> hi] ELSE XUnk
+XLeaf(x) == IF "lg" \notin DOMAIN x THEN XUnk
+            ELSE IF x.ty = "int" THEN XIntFin(x.b.s, x.lg - 1, x.lg) ELSE XFin(x.fn.s, x.lg - 1, x.lg)
+XAdd(a, b, it) ==   \* it: the operation is integer typed
+  IF a.c = "unk" \/ b.c = "unk" THEN XUnk ELSE IF a.c = "nan" \/ b.c = "nan" THEN XNan
+  ELSE IF a.c = "inf" /\ b.c = "inf" THEN (IF a.s = b.s THEN XInf(a.s) ELSE XNan)
+  ELSE IF a.c = "inf" THEN a ELSE IF b.c = "inf" THEN b
+  ELSE IF a.s = 0 THEN b ELSE IF b.s = 0 THEN a
+  ELSE IF a.s # b.s THEN XUnk                            \* cancellation: nothing is known about the magnitude
+  ELSE IF it THEN XIntFin(a.s, MaxI(a.lo, b.lo), MaxI(a.hi, b.hi) + 1) ELSE XFin(a.s, MaxI(a.lo, b.lo), MaxI(a.hi, b.hi) + 1)
+XNegate(a) == IF a.c \in {"unk", "nan"} THEN a ELSE IF a.c = "inf" THEN XInf(-a.s) ELSE [a EXCEPT !.s = -a.s]
+XMul(a, b, it) ==
+  IF a.c = "unk" \/ b.c = "unk" THEN XUnk ELSE IF a.c = "nan" \/ b.c = "nan" THEN XNan
+  ELSE IF a.c = "inf" \/ b.c = "inf" THEN (IF a.s * b.s = 0 THEN XNan ELSE XInf(a.s * b.s))      \* inf * 0 is invalid
+  ELSE IF it THEN XIntFin(a.s * b.s, a.lo + b.lo, a.hi + b.hi) ELSE XFin(a.s * b.s, a.lo + b.lo, a.hi + b.hi)
+XDiv(a, b) ==
+  IF a.c = "unk" \/ b.c = "unk" THEN XUnk ELSE IF a.c = "nan" \/ b.c = "nan" THEN XNan
+  ELSE IF b.c = "fin" /\ b.s = 0 THEN XNan                                                         \* the documented deviation
+  ELSE IF a.c = "inf" THEN (IF b.c = "inf" THEN XNan ELSE XInf(a.s * b.s))
+  ELSE IF b.c = "inf" THEN XZero                                                                   \* finite / inf is a zero
+  ELSE XFin(a.s * b.s, a.lo - b.hi, a.hi - b.lo)
+RECURSIVE ExtVal(_,_)
+ExtVal(t, ctx) ==
+  CASE t.k = "c" -> XLeaf(t)
+    [] t.k = "v" -> (LET bd == Binding(ctx, t.id) IN IF bd.st = "bound" THEN XLeaf(bd) ELSE XUnk)
+    [] t.k = "neg" -> XNegate(ExtVal(t.c, ctx))
+    [] t.k = "abs" -> (LET a == ExtVal(t.c, ctx) IN IF a.c \in {"unk", "nan"} THEN a ELSE IF a.c = "inf" THEN XInf(1)
+                                                    ELSE [a EXCEPT !.s = IF a.s = 0 THEN 0 ELSE 1])
+    [] t.k = "add" -> XAdd(ExtVal(t.l, ctx), ExtVal(t.r, ctx), IntTyped(t, ctx))
+    [] t.k = "sub" -> XAdd(ExtVal(t.l, ctx), XNegate(ExtVal(t.r, ctx)), IntTyped(t, ctx))
+    [] t.k = "mul" -> XMul(ExtVal(t.l, ctx), ExtVal(t.r, ctx), IntTyped(t, ctx))
+    [] t.k = "div" -> XDiv(ExtVal(t.l, ctx), ExtVal(t.r, ctx))
+    [] OTHER -> XUnk
 (* ---- forward error bound: the magnitude of the computation (every operation on absolute values) ---- *)
 RECURSIVE MagVal(_,_)
 MagVal(t, ctx) ==
